@@ -143,7 +143,7 @@ the VM builds — known finding; so are members and method calls.) -/
 def inFrag2 (calls : Bool) : Node → Bool
   | .bool _ _ | .str _ _ | .int _ _ | .float _ _ | .ident _ _ _ | .pointer _ => true
   | .unary _ op x => fragUnary op && inFrag2 calls x
-  | .binary _ op l r => (fragBinary op || op == "in" || op == "not in" || op == "..") && inFrag2 calls l && inFrag2 calls r
+  | .binary _ op l r => (fragBinary op || op == "in" || op == "not in" || op == ".." || op == "**") && inFrag2 calls l && inFrag2 calls r
   | .cond _ c a b => inFrag2 calls c && inFrag2 calls a && inFrag2 calls b
   | .index _ x i => inFrag2 calls x && inFrag2 calls i
   | .slice _ x none none => inFrag2 calls x
@@ -153,6 +153,7 @@ def inFrag2 (calls : Bool) : Node → Bool
   | .builtin _ name [a] => name == "len" && inFrag2 calls a
   | .builtin _ name [a, .closure _ b] => isPredBuiltin name && inFrag2 calls a && inFrag2 calls b
   | .func _ _ args _ => calls && inFrag2L calls args
+  | .array _ xs => inFrag2L calls xs
   | _ => false
 def inFrag2L (calls : Bool) : List Node → Bool
   | [] => true
@@ -164,11 +165,6 @@ def sliceOK (t : Option OTy) : Bool :=
   | some τ => (sliceElemKind τ).isSome
   | none => false
 
-def vtyOK (t : Option OTy) : Bool :=
-  match t with
-  | some τ => (vtyOf τ).isSome
-  | none => false
-
 /-- an integer of scalar type (excludes the loose index rule: a string index on a slice) -/
 def intOK (t : Option OTy) : Bool :=
   match t with
@@ -177,8 +173,26 @@ def intOK (t : Option OTy) : Bool :=
 
 def lenOK (t : Option OTy) : Bool :=
   match t with
-  | some τ => τ.kind == .string || (sliceElemKind τ).isSome
+  | some τ =>
+    (match vtyOf τ with
+      | some V => V == .sc .string || V.isSlice
+      | none => false)
   | none => false
+
+/-- a slice of scalars or a `[]interface{}` -/
+def sliceVOK (t : Option OTy) : Bool :=
+  match t with
+  | some τ =>
+    (match vtyOf τ with
+      | some V => V.isSlice
+      | none => false)
+  | none => false
+
+/-- both branches and the conditional have one value type -/
+def condOK (dt : TDefects) (a b : Option OTy) : Bool :=
+  match a, b with
+  | some t1, some t2 => (vtyOf t1).isSome && vtyOf t2 == vtyOf t1 && vtyOf (condType dt t1 t2) == vtyOf t1
+  | _, _ => false
 
 mutual
 /-- "all its operands are statically typed", for the extended fragment: every operand of a scalar operator
@@ -188,12 +202,12 @@ def typed2 (cfg : CheckCfg) : List OTy → Node → Bool
   | cs, .binary m op l r =>
     (if fragBinary op then
         scalarOK (synth cfg cs (.binary m op l r)) && scalarOK (synth cfg cs l) && scalarOK (synth cfg cs r)
-     else if op == "in" || op == "not in" then vtyOK (synth cfg cs l) && sliceOK (synth cfg cs r)
+     else if op == "in" || op == "not in" then vtyOK (synth cfg cs l) && sliceVOK (synth cfg cs r)
      else scalarOK (synth cfg cs l) && scalarOK (synth cfg cs r)) &&
     typed2 cfg cs l && typed2 cfg cs r
-  | cs, .cond m c a b =>
-    scalarOK (synth cfg cs (.cond m c a b)) && scalarOK (synth cfg cs c) && scalarOK (synth cfg cs a) &&
-      scalarOK (synth cfg cs b) && typed2 cfg cs c && typed2 cfg cs a && typed2 cfg cs b
+  | cs, .cond _ c a b =>
+    scalarOK (synth cfg cs c) && condOK cfg.dt (synth cfg cs a) (synth cfg cs b) &&
+      typed2 cfg cs c && typed2 cfg cs a && typed2 cfg cs b
   | cs, .index _ x i =>
     sliceOK (synth cfg cs x) && intOK (synth cfg cs i) && typed2 cfg cs x && typed2 cfg cs i
   | cs, .slice _ x none none => sliceOK (synth cfg cs x) && typed2 cfg cs x
@@ -215,7 +229,12 @@ def typed2 (cfg : CheckCfg) : List OTy → Node → Bool
           | .inr (ins, variadic, numIn, offset, _) => typed2A cfg cs ins variadic numIn offset 0 args
           | .inl _ => false)
       | none => false)
+  | cs, .array _ xs => typed2L cfg cs xs
   | _, _ => true
+/-- the elements of an array literal: each has a value type of the fragment -/
+def typed2L (cfg : CheckCfg) : List OTy → List Node → Bool
+  | _, [] => true
+  | cs, a :: rest => vtyOK (synth cfg cs a) && typed2 cfg cs a && typed2L cfg cs rest
 /-- the arguments of a call: each fits its parameter in the fragment's sense (`argOK`) -/
 def typed2A (cfg : CheckCfg) : List OTy → List Ty → Bool → Nat → Nat → Nat → List Node → Bool
   | _, _, _, _, _, _, [] => true
@@ -273,14 +292,17 @@ theorem frag2_sound (hd : E .divzero) (hi : E .index) (hbud : E .budget) (cfg : 
   | .cond m cn a b, cs, hf, ht => by
     simp only [inFrag2, Bool.and_eq_true] at hf
     simp only [typed2, Bool.and_eq_true] at ht
-    obtain ⟨⟨⟨⟨⟨⟨h0, h1⟩, h2⟩, h3⟩, t1⟩, t2⟩, t3⟩ := ht
-    have ih1 := frag2_sound hd hi hbud cfg c henv calls hw cn cs hf.1.1 t1
-    have ih2 := frag2_sound hd hi hbud cfg c henv calls hw a cs hf.1.2 t2
-    have ih3 := frag2_sound hd hi hbud cfg c henv calls hw b cs hf.2 t3
-    refine frag_to_spec2 (frag_cond cfg cs c m cn a b h0 h1 h2 h3 (spec2_to_frag ih1) (spec2_to_frag ih2)
-      (spec2_to_frag ih3)) ?_
-    intro τ h
-    rw [h] at h0; exact h0
+    obtain ⟨⟨⟨⟨h0, h1⟩, t1⟩, t2⟩, t3⟩ := ht
+    refine spec2_cond cfg c cs m cn a b (frag2_sound hd hi hbud cfg c henv calls hw cn cs hf.1.1 t1)
+      (frag2_sound hd hi hbud cfg c henv calls hw a cs hf.1.2 t2)
+      (frag2_sound hd hi hbud cfg c henv calls hw b cs hf.2 t3) ?_ ?_
+    · intro ct h
+      rw [h] at h0; exact h0
+    · intro ta tb ha hb
+      rw [ha, hb] at h1
+      simp only [condOK, Bool.and_eq_true, beq_iff_eq] at h1
+      obtain ⟨V, hV⟩ := Option.isSome_iff_exists.1 h1.1.1
+      exact ⟨V, hV, by rw [h1.1.2, hV], by rw [h1.2, hV]⟩
   | .binary m op l r, cs, hf, ht => by
     simp only [inFrag2, Bool.and_eq_true] at hf
     simp only [typed2, Bool.and_eq_true] at ht
@@ -306,21 +328,27 @@ theorem frag2_sound (hd : E .divzero) (hi : E .index) (hbud : E .budget) (cfg : 
           exact this
         · intro t h
           have := hcls.2; rw [h] at this
-          simp only [sliceOK, Option.isSome_iff_exists] at this
-          exact this
+          simp only [sliceVOK] at this
+          cases hv : vtyOf t with
+          | none => rw [hv] at this; cases this
+          | some Vr => rw [hv] at this; exact ⟨Vr, rfl, this⟩
       · simp only [hin, Bool.false_eq_true, if_false, Bool.and_eq_true] at hcls
-        have hop' : op = ".." := by
+        have hop' : op = ".." ∨ op = "**" := by
           simp only [Bool.or_eq_true, beq_iff_eq] at hop hin
-          rcases hop with (h | h) | h
+          rcases hop with ((h | h) | h) | h
           · exact absurd (Or.inl h) hin
           · exact absurd (Or.inr h) hin
-          · exact h
-        subst hop'
-        refine spec2_range hbud cfg c cs m l r ihl ihr ?_ ?_
-        · intro t h
+          · exact Or.inl h
+          · exact Or.inr h
+        have h1 : ∀ t, synth cfg cs l = some t → ScalarT t := by
+          intro t h
           have := hcls.1; rw [h] at this; exact this
-        · intro t h
+        have h2 : ∀ t, synth cfg cs r = some t → ScalarT t := by
+          intro t h
           have := hcls.2; rw [h] at this; exact this
+        rcases hop' with rfl | rfl
+        · exact spec2_range hbud cfg c cs m l r ihl ihr h1 h2
+        · exact spec2_pow cfg c cs m l r ihl ihr h1 h2
   | .index m x i, cs, hf, ht => by
     simp only [inFrag2, Bool.and_eq_true] at hf
     simp only [typed2, Bool.and_eq_true] at ht
@@ -371,11 +399,13 @@ theorem frag2_sound (hd : E .divzero) (hi : E .index) (hbud : E .budget) (cfg : 
     intro t h
     have hl := ht.1
     rw [h] at hl
-    simp only [lenOK, Bool.or_eq_true, beq_iff_eq, Option.isSome_iff_exists] at hl
-    rcases hl with hstr | ⟨k, hk⟩
-    · have hsc : ScalarT t := by unfold ScalarT; rw [hstr]; rfl
-      exact ⟨.sc t.kind, vtyOf_scalar hsc, Or.inl (by rw [hstr])⟩
-    · exact ⟨.sl k, vtyOf_slice_of hk, Or.inr ⟨k, rfl⟩⟩
+    simp only [lenOK] at hl
+    cases hv : vtyOf t with
+    | none => rw [hv] at hl; cases hl
+    | some V =>
+      rw [hv] at hl
+      simp only [Bool.or_eq_true, beq_iff_eq] at hl
+      exact ⟨V, rfl, hl⟩
   | .builtin m name [a, .closure mc b], cs, hf, ht => by
     simp only [inFrag2, Bool.and_eq_true] at hf
     simp only [typed2, Bool.and_eq_true] at ht
@@ -413,13 +443,29 @@ theorem frag2_sound (hd : E .divzero) (hi : E .index) (hbud : E .budget) (cfg : 
       rw [h2] at ht
       simp only [] at ht
       exact frag2_args hd hi hbud cfg c henv calls hw args cs ins variadic numIn offset 0 hfa ht
+  | .array m xs, cs, hf, ht => by
+    simp only [inFrag2] at hf
+    simp only [typed2] at ht
+    exact spec2_array hbud cfg c cs m xs (frag2_elems hd hi hbud cfg c henv calls hw xs cs hf ht)
   | .nil _, _, hf, _ | .const _ _, _, hf, _ | .matches _ _ _ _, _, hf, _ | .prop _ _ _ _, _, hf, _
   | .method _ _ _ _ _, _, hf, _
-  | .closure _ _, _, hf, _ | .array _ _, _, hf, _ | .map _ _, _, hf, _ | .pair _ _ _, _, hf, _ => by
+  | .closure _ _, _, hf, _ | .map _ _, _, hf, _ | .pair _ _ _, _, hf, _ => by
     simp [inFrag2] at hf
   | .builtin _ _ [], _, hf, _ => by simp [inFrag2] at hf
   | .builtin _ _ (_ :: _ :: _ :: _), _, hf, _ => by simp [inFrag2] at hf
   | .builtin _ _ [_, .nil _], _, hf, _ => by simp [inFrag2] at hf
+
+theorem frag2_elems (hd : E .divzero) (hi : E .index) (hbud : E .budget) (cfg : CheckCfg) (c : SCfg)
+    (henv : EnvConforms2 cfg c.env) (calls : Bool) (hw : calls = true → WorldConforms E cfg c) :
+    ∀ (xs : List Node) (cs : List OTy), inFrag2L calls xs = true → typed2L cfg cs xs = true →
+      ElemsOK E cfg c cs xs
+  | [], _, _, _ => trivial
+  | a :: rest, cs, hf, ht => by
+    simp only [inFrag2L, Bool.and_eq_true] at hf
+    simp only [typed2L, Bool.and_eq_true] at ht
+    refine ⟨⟨?_, frag2_sound hd hi hbud cfg c henv calls hw a cs hf.1 ht.1.2, ht.1.1⟩,
+      frag2_elems hd hi hbud cfg c henv calls hw rest cs hf.2 ht.2⟩
+    cases a <;> first | rfl | (simp [inFrag2] at hf)
 
 theorem frag2_args (hd : E .divzero) (hi : E .index) (hbud : E .budget) (cfg : CheckCfg) (c : SCfg)
     (henv : EnvConforms2 cfg c.env) (calls : Bool) (hw : calls = true → WorldConforms E cfg c) :
